@@ -101,7 +101,9 @@ def mutate(rng):
             continue
         i = rng.choice(cand)
         l = lines[i]
-        code = l.split('//')[0]
+        code = l.split('//')[0].split('/*')[0]
+        if 'write!(' in code or 'fmt::' in code or 'panic!(' in code or 'description' in code:
+            continue
         choices = []
         for pat, rep in OPS:
             for m in re.finditer(pat, code):
